@@ -154,10 +154,70 @@ def anyof_cases(ctx):
     return out
 
 
+def multi_file_cases():
+    """two schema files in one run (both argument orders), each composing its own definition `base` (same reference text, different content) with an inline branch,
+    at the root (allOf), in a property (allOf) and in a property (anyOf): every file's composite means that file's branches"""
+    def mk(i, key, leaf, extra):
+        base = {"type": "object", "properties": {key: leaf}, "required": [key]}
+        inl = {"type": "object", "properties": {extra: {"type": "number"}}, "required": [extra]}
+        return {"$id": "http://x/" + i, "type": "object", "$defs": {"base": base},
+                "allOf": [{"$ref": "#/$defs/base"}, inl]}, base, inl
+
+    def mkp(i, key, leaf, extra, comb):
+        base = {"type": "object", "properties": {key: leaf}, "required": [key]}
+        inl = {"type": "object", "properties": {extra: {"type": "number"}}, "required": [extra]}
+        return {"$id": "http://x/" + i, "type": "object", "$defs": {"base": base},
+                "properties": {"u": {comb: [{"$ref": "#/$defs/base"}, inl]}}, "required": ["u"]}
+    out = []
+    maps = [("http://x/order", "Order"), ("http://x/user", "User")]
+    # root-level allOf
+    order, _, _ = mk("order", "orderId", {"type": "integer"}, "amount")
+    user, _, _ = mk("user", "login", {"type": "string", "minLength": 3}, "score")
+    docs = []
+    for t, key, good, extra in (("Order", "orderId", 7, "amount"), ("User", "login", "alice", "score")):
+        docs.append({"doc": {key: good, extra: 1.5}, "cls": "mf-all", "path": (), "t": t, "expect": "ACC"})
+        docs.append({"doc": {extra: 1.5}, "cls": "mf-missing-ref-branch-key", "path": (), "t": t, "expect": "REJ"})
+        docs.append({"doc": {key: good}, "cls": "mf-missing-inline-branch-key", "path": (), "t": t, "expect": "REJ"})
+    docs.append({"doc": {"login": "al", "score": 1}, "cls": "mf-constraint", "path": (), "t": "User", "expect": "REJ"})
+    docs.append({"doc": {"orderId": "x", "amount": 1}, "cls": "mf-constraint", "path": (), "t": "Order", "expect": "REJ"})
+    for ai, argv in enumerate((["s.json", "user.json"], ["user.json", "s.json"])):
+        out.append(Case("c11mf%d" % ai, order, copy.deepcopy(docs), fam="multi-file/root-allOf", extra_files={"user.json": json.dumps(user)}, argv=argv, mappings=maps, no_model=True))
+    for comb in ("allOf", "anyOf"):
+        order = mkp("order", "orderId", {"type": "integer"}, "amount", comb)
+        user = mkp("user", "login", {"type": "string", "minLength": 3}, "score", comb)
+        docs = []
+        for t, key, good, extra in (("Order", "orderId", 7, "amount"), ("User", "login", "alice", "score")):
+            docs.append({"doc": {"u": {key: good, extra: 1.5}}, "cls": "mf-all", "path": (), "t": t, "expect": "ACC"})
+            if comb == "allOf":
+                docs.append({"doc": {"u": {extra: 1.5}}, "cls": "mf-missing-ref-branch-key", "path": (), "t": t, "expect": "REJ"})
+                docs.append({"doc": {"u": {key: good}}, "cls": "mf-missing-inline-branch-key", "path": (), "t": t, "expect": "REJ"})
+            else:
+                docs.append({"doc": {"u": {}}, "cls": "mf-no-branch", "path": (), "t": t, "expect": "REJ"})
+        for ai, argv in enumerate((["s.json", "user.json"], ["user.json", "s.json"])):
+            out.append(Case("c11mp%s%d" % (comb, ai), order, copy.deepcopy(docs), fam="multi-file/property-" + comb, extra_files={"user.json": json.dumps(user)}, argv=argv, mappings=maps,
+                            no_model=True))
+    return out
+
+
 def run(ctx):
     ctx.proof_step(PROPS_FILE)
+    mf = multi_file_cases()
     cases = allof_cases(ctx) + anyof_cases(ctx)
-    run_cases(ctx, cases, "c11")
+    run_cases(ctx, cases + mf, "c11")
+    nmf = 0
+    for c in mf:
+        if not c.build_ok:
+            ctx.violation("oracle", dict(c.replay_obj(), gen_err=c.gen_err, build_err=c.build_err), "%s: generation failed or does not build: %s" % (c.fam, (c.gen_err or c.build_err)[:300]))
+            nmf += 1
+            continue
+        ctx.cov["programs"] += 1
+        for di, d in enumerate(c.docs):
+            o = d.get("obs") or {}
+            ctx.count({"s": c.argv, "f": c.fam, "d": d["doc"], "t": d["t"]}, True, "allOf/anyOf/" + c.fam)
+            if o.get("v") != d["expect"] and nmf < 4:
+                ctx.violation("oracle", c.replay_obj(di), "%s, files %s, type %s: document %s (%s) should be %s, was %s %s"
+                              % (c.fam, c.argv, d["t"], json.dumps(d["doc"]), d["cls"], d["expect"], o.get("v"), o.get("err", "")[:120]))
+                nmf += 1
     classes = set(d["cls"] for c in cases for d in c.docs)
     nv = evaluate(ctx, cases, classes, {}, "allOf/anyOf")
     # the generated type exposes the union of the branches' properties
